@@ -11,7 +11,10 @@
    set-up, after every submission call, after finish and after release; the numbers must equal the ledger's on
    every generated LDPC/2D session.
    Not in the ledger: call-local scratch (allocated and freed inside one call), the Gaussian elimination's temporaries,
-   out-of-memory exits, the Reed-Solomon codecs (two or three persistent blocks; counted at run time only).
+   out-of-memory exits.
+   The Reed-Solomon sessions have the same kind of ledger (RSHeap.v: the codec context - created by the first
+   of_build_repair_symbol or by the decoding, freed by the GF(2^8) decoding itself and kept until release by GF(2^m) -
+   and one block per decoded source symbol unless the callback returned a buffer), with the same theorems and tie.
    Whether the COMPILED library has freed every block is a fact about the heap at run time: the check
    also decides that by link-time allocation accounting (every generated life cycle, release at any
    point, the application freeing exactly what the API says it owns, live blocks must return to the
@@ -26,7 +29,7 @@
    - the Reed-Solomon finish allocates (or asks the callback for) exactly one buffer per source entry
      that is still empty, and none for an entry that holds a received symbol. *)
 From Coq Require Import Arith List Bool.
-From OFV Require Import ListAux Sparse SparseProofs ITModel ITProofs MLModel RSApi RSApiProofs StableTables LdpcHeap LdpcHeapProofs.
+From OFV Require Import ListAux Sparse SparseProofs ITModel ITProofs MLModel RSApi RSApiProofs StableTables LdpcHeap LdpcHeapProofs RSHeap RSHeapProofs.
 Import ListNotations.
 
 Theorem sparse_entry_pool_is_conserved : forall m, SparseProofs.WF m -> nblocks m * BLOCK = nfree m + total m.
@@ -97,6 +100,22 @@ Theorem ldpc_session_ledger_never_stuck :
          exists s2, session cbf H0 R0 N0 fuel esis (Some (fuel2, perm)) = Some s2 /\ core s2 = o_st o.
 Proof. exact session_never_stuck. Qed.
 
+(* Reed-Solomon sessions, both codecs (ctxn, keep), any callback behaviour, ANY sequence of build / submit /
+   set-available / finish operations: the ledger is never stuck, and release leaves exactly the blocks of the decoded
+   source symbols; a second release of the context would be stuck *)
+Theorem rs_session_leaves_nothing_behind :
+  forall ctxn keep cbf cb k n (ops : list rsop),
+  exists s, rsh_run ctxn keep cbf cb (rsh_init k n) ops = Some s /\ RInv s /\
+    exists h, rsh_release s = Some h /\ (forall b, In b (live h) <-> In b (given s)) /\ NoDup (live h).
+Proof. exact RSHeapProofs.rs_session_leaves_nothing_behind. Qed.
+Theorem rs_context_cannot_be_freed_twice : forall s h b, RInv s -> rsh_release s = Some h -> In b (ctxb s) -> hfree h b = None.
+Proof. exact rsh_release_ctx_dead. Qed.
+Theorem rs_decoded_blocks_are_never_taken_back : forall ctxn keep cbf cb ops s s' b,
+  rsh_run ctxn keep cbf cb s ops = Some s' -> In b (given s) -> In b (given s').
+Proof. exact rsh_run_given_mono. Qed.
+
+Print Assumptions rs_session_leaves_nothing_behind.
+Print Assumptions rs_context_cannot_be_freed_twice.
 Print Assumptions ledger_never_stuck_in_a_submission.
 Print Assumptions ledger_invariant_holds_in_every_reachable_state.
 Print Assumptions release_frees_everything_but_the_decoded_sources.
